@@ -1700,6 +1700,31 @@ func (w *Writer) writeMathExpression(e ir.ExprMath) error {
 		}
 	}
 
+	// countLeadingZeros / countTrailingZeros: firstbithigh / firstbitlow yield the bit index
+	// (all ones for 0), WGSL wants the count: 31 - firstbithigh(x) and min(32, firstbitlow(x)).
+	// A signed argument is read as unsigned so that a negative value has no leading zeros.
+	switch e.Fun {
+	case ir.MathCountLeadingZeros, ir.MathCountTrailingZeros:
+		argScalar := w.getExprScalar(e.Arg)
+		signed := argScalar != nil && argScalar.Kind == ir.ScalarSint
+		if signed {
+			w.Out.WriteString("asint(")
+		}
+		if e.Fun == ir.MathCountLeadingZeros {
+			w.Out.WriteString("(31u - firstbithigh(asuint(")
+		} else {
+			w.Out.WriteString("min(32u, firstbitlow(asuint(")
+		}
+		if err := w.writeExpression(e.Arg); err != nil {
+			return fmt.Errorf("math arg: %w", err)
+		}
+		w.Out.WriteString(")))")
+		if signed {
+			w.Out.WriteByte(')')
+		}
+		return nil
+	}
+
 	funcName, err := mathFunctionToHLSL(e.Fun)
 	if err != nil {
 		return err
